@@ -119,6 +119,14 @@ def strategy(tier: str):
 
 
 def enumerate_cases(tier: str):
+    for digits in (4300, 4301, 5000, 100000):
+        big = "1" * digits
+        for text in (big, "-" + big, f"[{big}]", '{"1": ' + big + "}", '{"1": {"node_id": ' + big + "}}",
+                     '{"1": {"node_id": 1, "node_type": 17, "protocol_version": "2.0", "battery_level": ' + big + "}}",
+                     '{"1": {"node_id": 1, "node_type": 17, "protocol_version": "2.0", "children": {"1": {"child_id": 1, "child_type": ' + big + "}}}}",
+                     f'{{"1": {{"node_id": 1, "node_type": 17, "protocol_version": "2.0", "children": {{"{big}": {{"child_id": 1, "child_type": 1}}}}}}}}',
+                     f"{big}.5", f"1e{big[:6]}"):
+            yield {"kind": "content", "origin": "long-number", "data": text}
     for depth in (1000, 100000):
         yield {"kind": "content", "origin": "deep", "data": "[" * depth}
         yield {"kind": "content", "origin": "deep", "data": '{"1":' * depth}
